@@ -149,7 +149,7 @@ func checkC05(r *Run) {
 		c.checkBody(r4, r2, pi)
 	}
 	for t := range specHeader {
-		if !seenT[t] {
+		if !seenT[t] && !c.literalPackSite(r2, r4, t) {
 			r2.Lost(t+".Pack", "no pack site for %s", t)
 		}
 	}
@@ -1506,4 +1506,184 @@ func (c *Ctx) remainingLengthLoopForm(f *ssa.Function) (string, bool) {
 		return "lengths above 268435455 are not rejected before encoding (a fifth byte would be emitted)", true
 	}
 	return "", true
+}
+
+// literalPackSite: T.Pack builds a fixed-size packet as a byte-slice literal instead of calling pack():
+// [header, remaining length, body...]. The header byte is checked like that of a pack site, the length byte must be the
+// constant number of body bytes (< 128: one length byte), and the body is decomposed like an operand of pack.
+func (c *Ctx) literalPackSite(r2, r4 *RuleRep, t string) bool {
+	f := c.Method(t, "Pack")
+	if f == nil || f.Blocks == nil {
+		return false
+	}
+	rets := returnsOf(f)
+	if len(rets) != 1 || len(rets[0].Results) != 1 {
+		return false
+	}
+	sl, ok := c.Resolve(rets[0].Results[0]).(*ssa.Slice)
+	if !ok || sl.Low != nil || sl.High != nil {
+		return false
+	}
+	al, ok := sl.X.(*ssa.Alloc)
+	if !ok || al.Parent() != f {
+		return false
+	}
+	elems := arrayElems(al)
+	if len(elems) < 2 {
+		return false
+	}
+	for _, e := range elems {
+		if e == nil {
+			return false
+		}
+	}
+	pos := rets[0].Pos()
+	key := FuncName(f) + "/header"
+	cc := c.newChain()
+	base, items, ok := cc.decomposeOr(elems[0])
+	if !ok {
+		r2.Undecided(key, pos, "cannot decompose the fixed-header byte (%s)", cc.err)
+		return true
+	}
+	want := specHeader[t]
+	total := base
+	cond := false
+	for _, it := range items {
+		if it.Cond != nil || len(it.Alt) > 0 {
+			cond = true
+		}
+		total |= it.Mask
+	}
+	switch {
+	case cond:
+		r2.Bad(key, pos, "the fixed header of %s depends on a condition", t)
+	case total != want:
+		r2.Bad(key, pos, "%s is packed with fixed-header byte 0x%02X; MQTT 3.1.1 requires 0x%02X (type nibble and reserved flag bits)", t, total, want)
+	default:
+		r2.OK(key, pos, "fixed header 0x%02X", total)
+	}
+	n, isK := constInt(elems[1])
+	bodyLen := int64(len(elems) - 2)
+	if !isK || n != bodyLen || bodyLen > 0x7F {
+		r2.Bad(FuncName(f)+"/length", pos, "the remaining-length byte of the literal %s packet is not the constant number of bytes that follow it (%d)", t, bodyLen)
+		return true
+	}
+	r2.OK(FuncName(f)+"/length", pos, "remaining length %d = number of body bytes of the literal", n)
+	var its []bItem
+	for _, e := range elems[2:] {
+		its = append(its, bItem{Kind: "byte", Val: e})
+	}
+	its = c.fuseUint16(its)
+	got := c.renderItems(its)
+	wantBody := ""
+	switch t {
+	case "pktPubAck", "pktPubRec", "pktPubRel", "pktPubComp":
+		wantBody = "uint16:ID"
+	default:
+		r4.Undecided(FuncName(f)+"/body", pos, "literal packet of a kind whose body is not fixed-size")
+		return true
+	}
+	if matchPattern(wantBody, got) {
+		r4.OK(FuncName(f)+"/body", pos, "[%s]", got)
+	} else {
+		r4.Bad(FuncName(f)+"/body", pos, "body of %s is [%s]; MQTT 3.1.1 order is [%s]", t, got, wantBody)
+	}
+	return true
+}
+
+// fuseUint16: byte(v>>8), byte(v) for the same 16-bit v is the big-endian encoding of v.
+func (c *Ctx) fuseUint16(its []bItem) []bItem {
+	same := func(a, b ssa.Value) bool {
+		if a == b || c.Resolve(a) == c.Resolve(b) {
+			return true
+		}
+		la, ok1 := a.(*ssa.UnOp)
+		lb, ok2 := b.(*ssa.UnOp)
+		if !ok1 || !ok2 || la.Op != token.MUL || lb.Op != token.MUL {
+			return false
+		}
+		fa, ok1 := la.X.(*ssa.FieldAddr)
+		fb, ok2 := lb.X.(*ssa.FieldAddr)
+		if !ok1 || !ok2 || fa.Field != fb.Field || c.Resolve(fa.X) != c.Resolve(fb.X) || la.Block() != lb.Block() {
+			return false
+		}
+		// no store or call between the two loads
+		i, j := instrIndex(la), instrIndex(lb)
+		if i > j {
+			i, j = j, i
+		}
+		for _, in := range la.Block().Instrs[i:j] {
+			switch y := in.(type) {
+			case *ssa.Store:
+				// a store into the literal under construction cannot change the field
+				root := y.Addr
+				for {
+					if ia, ok := root.(*ssa.IndexAddr); ok {
+						root = ia.X
+						continue
+					}
+					if f2, ok := root.(*ssa.FieldAddr); ok {
+						root = f2.X
+						continue
+					}
+					break
+				}
+				if al, ok := root.(*ssa.Alloc); !ok || al.Parent() != la.Parent() {
+					return false
+				}
+			case *ssa.Call:
+				if _, isB := y.Call.Value.(*ssa.Builtin); !isB {
+					return false
+				}
+			}
+		}
+		return true
+	}
+	hi := func(v ssa.Value) (ssa.Value, bool) {
+		cv, ok := v.(*ssa.Convert)
+		if !ok {
+			return nil, false
+		}
+		sh, ok := cv.X.(*ssa.BinOp)
+		if !ok || sh.Op != token.SHR {
+			return nil, false
+		}
+		if k, ok := constInt(sh.Y); !ok || k != 8 {
+			return nil, false
+		}
+		if w, isU := unsignedWidth(sh.X.Type()); !isU || w != 16 {
+			return nil, false
+		}
+		return sh.X, true
+	}
+	lo := func(v ssa.Value) (ssa.Value, bool) {
+		cv, ok := v.(*ssa.Convert)
+		if !ok {
+			return nil, false
+		}
+		x := cv.X
+		if m, ok := x.(*ssa.BinOp); ok && m.Op == token.AND {
+			if k, ok := constInt(m.Y); ok && k == 0xFF {
+				x = m.X
+			}
+		}
+		if w, isU := unsignedWidth(x.Type()); !isU || w != 16 {
+			return nil, false
+		}
+		return x, true
+	}
+	var out []bItem
+	for i := 0; i < len(its); i++ {
+		if i+1 < len(its) && its[i].Kind == "byte" && its[i+1].Kind == "byte" {
+			if h, ok := hi(its[i].Val); ok {
+				if l, ok := lo(its[i+1].Val); ok && same(h, l) {
+					out = append(out, bItem{Kind: "uint16", Val: h})
+					i++
+					continue
+				}
+			}
+		}
+		out = append(out, its[i])
+	}
+	return out
 }
